@@ -31,15 +31,19 @@ func (P) Rule() string {
 	return "case = one fresh mitm.Config (harness CA) driven by 8-30 ops: get/hs (GetCertificate directly or a real tls handshake over net.Pipe; " +
 		"TLS() or TLSForHost(fallback); SNI present/absent) over a pool of hosts in every spelling (LDH names in mixed case, IPv4, bare IPv6, " +
 		"[v6]:port, host:port, empty, :port, plus excluded/malformed spellings), SetValidity/SetOrganization, expire (sleep past the window of " +
-		"2-second certificates), conc (16 concurrent requesters over 4 hosts); or a batch of net.SplitHostPort / net.ParseIP strings from a " +
+		"2-second certificates), conc (16 concurrent requesters over 4 hosts), vhl/vwl (x509 VerifyHostname / Verify at the window edges of the " +
+		"leaf just served, against other spellings of the same host and against neighbours); hosts are drawn half from tables, half from the " +
+		"grammar of the class (random LDH names, IPv4, IPv6 incl. last group all digits / v4-mapped / compressed, random ports); or a batch of " +
+		"vh/vfy ops (x509 on hand-made certificates with chosen SAN sets incl. wildcards, trailing dots, several entries x host spellings x " +
+		"window edges x trusted/untrusted signer); or a batch of net.SplitHostPort / net.ParseIP strings from a " +
 		"grammar; distinct by hash of the op list; non-trivial when the case shows at least two outcome kinds among fresh / cached / refused " +
-		"(stdlib batches: both an accepted and a rejected string)"
+		"(stdlib and verifier batches: both an accepted and a rejected input)"
 }
 
 func (P) Nontrivial(ops []string, impl []string) bool {
 	kinds := map[string]bool{}
 	for _, l := range impl {
-		for _, k := range []string{" fresh ", " cached ", "refused", "shp ok", "shp err", "ip none"} {
+		for _, k := range []string{" fresh ", " cached ", "refused", "shp ok", "shp err", "ip none", "vh ok", "vh no", "vfy ok", "vfy expired", "vfy hostname", "vfy authority"} {
 			if strings.Contains(l, k) {
 				kinds[k] = true
 			}
@@ -64,7 +68,9 @@ var (
 func setupCA() {
 	caOnce.Do(func() {
 		var err error
-		caCert, caKey, err = mitm.NewAuthority("verif-c06-ca", "Verif C06 Authority", 24*time.Hour)
+		// 30 days: every leaf window the cases produce (validity up to 24 h) and every CurrentTime the
+		// vfy/vwl ops choose lies well inside the CA's own window.
+		caCert, caKey, err = mitm.NewAuthority("verif-c06-ca", "Verif C06 Authority", 30*24*time.Hour)
 		if err != nil {
 			panic(err)
 		}
@@ -95,6 +101,8 @@ type ex struct {
 	orgAt     map[string]string // serial -> organisation configured when it was first seen
 	leaves    []*x509.Certificate
 	shortAt   time.Time // when the oldest unexpired short-lived certificate was handed out
+	last      *x509.Certificate // leaf most recently served by get/hs (ops vhl, vwl)
+	lastHost  string            // the host that request named (SNI or fallback)
 }
 
 func (P) NewExec() core.Exec {
@@ -404,6 +412,7 @@ func (e *ex) Do(op string) core.Result {
 			s.t1 = time.Now()
 			r := e.check(t[1], fb, sni, s)
 			r.Impl = e.show(s, base, nil, "")
+			e.remember(t[1], fb, sni, s)
 			core.Count("op:get-" + t[1] + sniKind(sni))
 			return r
 		}
@@ -424,6 +433,8 @@ func (e *ex) Do(op string) core.Result {
 		}
 		e.hazard()
 		return e.concurrent(hosts)
+	case "vh", "vfy", "vhl", "vwl":
+		return e.verifyOp(t)
 	case "shp":
 		if len(t) != 2 {
 			break
@@ -516,6 +527,7 @@ func (e *ex) handshake(mode, fb, sni string, base map[string]bool) core.Result {
 	}
 	r := e.check(mode, fb, sni, rec)
 	r.Impl = "hs " + e.show(rec, base, nil, "")
+	e.remember(mode, fb, sni, rec)
 	if r.Fail != "" {
 		return r
 	}
